@@ -171,30 +171,55 @@ theorem index_eq_mod (t : HashTable) (h : Nat) (hc : ∃ k, k < 32 ∧ t.capacit
 theorem cap_pos (t : HashTable) (hc : ∃ k, k < 32 ∧ t.capacity = 2 ^ k) : 0 < t.capacity := by
   obtain ⟨k, _, hk⟩ := hc; rw [hk]; exact Nat.two_pow_pos k
 
+/-! ### the ledger seen through one allocator triple -/
+@[simp] theorem check_liveOf (m : Mem) (b : Bool) (tr : Triple) : liveOf (m.check b) tr = liveOf m tr := by
+  cases b <;> cases tr <;> simp [Mem.check, liveOf]
+@[simp] theorem check_allocsOf (m : Mem) (b : Bool) (tr : Triple) : allocsOf (m.check b) tr = allocsOf m tr := by
+  cases b <;> cases tr <;> simp [Mem.check, allocsOf]
+
+/-- a successful allocation: one more block owned through that triple, nothing else of interest moves -/
+theorem allocT_true (m : Mem) (tr : Triple) (h : (m.allocT tr).1 = true) :
+    liveOf (m.allocT tr).2 tr = liveOf m tr + 1 ∧ (m.allocT tr).2.fault = m.fault := by
+  cases tr with
+  | conf => simp only [Mem.allocT_conf] at h ⊢; exact ⟨(Mem.alloc_fst_true m h).1, (Mem.alloc_fst_true m h).2.1⟩
+  | libc => exact ⟨rfl, rfl⟩
+
+/-- a refused allocation (only the configured triple can refuse): nothing owned changes -/
+theorem allocT_false (m : Mem) (tr : Triple) (h : (m.allocT tr).1 = false) :
+    liveOf (m.allocT tr).2 tr = liveOf m tr ∧ (m.allocT tr).2.fault = m.fault := by
+  cases tr with
+  | conf => simp only [Mem.allocT_conf] at h ⊢; exact ⟨(Mem.alloc_fst_false m h).1, (Mem.alloc_fst_false m h).2.1⟩
+  | libc => simp [Mem.allocT] at h
+
+/-- with an empty schedule no allocator refuses -/
+theorem allocT_nil (m : Mem) (tr : Triple) (h : m.sched = []) :
+    (m.allocT tr).1 = true ∧ (m.allocT tr).2.sched = [] := by
+  cases tr with
+  | conf => exact Mem.alloc_nil m h
+  | libc => exact ⟨rfl, h⟩
+
+theorem freeT_spec (m : Mem) (tr : Triple) (h : 0 < liveOf m tr) :
+    liveOf (m.freeT tr) tr = liveOf m tr - 1 ∧ (m.freeT tr).fault = m.fault ∧ (m.freeT tr).sched = m.sched := by
+  cases tr with
+  | conf =>
+    have hl : m.live ≠ 0 := by simp only [liveOf] at h; omega
+    simp [Mem.free, hl, liveOf]
+  | libc =>
+    have hl : m.liveLibc ≠ 0 := by simp only [liveOf] at h; omega
+    simp [Mem.freeT, hl, liveOf]
+
 /-! ### repeated frees -/
-theorem freeN_spec (m : Mem) (n : Nat) (h : n ≤ m.live) :
-    (freeN m n).live = m.live - n ∧ (freeN m n).fault = m.fault ∧ (freeN m n).libc = m.libc ∧
-    (freeN m n).sched = m.sched ∧ (freeN m n).nfree = m.nfree + n ∧ (freeN m n).nalloc = m.nalloc := by
+theorem freeN_spec (m : Mem) (tr : Triple) (n : Nat) (h : n ≤ liveOf m tr) :
+    liveOf (freeN m tr n) tr = liveOf m tr - n ∧ (freeN m tr n).fault = m.fault ∧
+    (freeN m tr n).sched = m.sched := by
   induction n generalizing m with
   | zero => simp [freeN]
   | succ n ih =>
-    have hl : m.live ≠ 0 := by omega
-    have h1 : m.free.live = m.live - 1 := by simp [Mem.free, hl]
-    have h2 : m.free.fault = m.fault := by simp [Mem.free, hl]
-    have h3 : m.free.libc = m.libc := by simp [Mem.free, hl]
-    have h4 : m.free.sched = m.sched := by simp [Mem.free, hl]
-    have h5 : m.free.nfree = m.nfree + 1 := by simp [Mem.free, hl]
-    have h6 : m.free.nalloc = m.nalloc := by simp [Mem.free, hl]
-    have := ih m.free (by omega)
+    obtain ⟨f1, f2, f3⟩ := freeT_spec m tr (by omega)
+    have := ih (m.freeT tr) (by omega)
     simp only [freeN]
-    rw [h1, h2, h3, h4, h5, h6] at this
-    refine ⟨by omega, this.2.1, this.2.2.1, this.2.2.2.1, by omega, this.2.2.2.2.2⟩
-
-theorem free_spec (m : Mem) (h : 0 < m.live) :
-    m.free.live = m.live - 1 ∧ m.free.fault = m.fault ∧ m.free.sched = m.sched := by
-  have hl : m.live ≠ 0 := by omega
-  simp [Mem.free, hl]
-
+    rw [f1, f2, f3] at this
+    exact ⟨by omega, this.2.1, this.2.2⟩
 
 end CC.HT
 
